@@ -197,6 +197,7 @@ RESULT = 'std::result::Result'
 ORDERING = 'std::cmp::Ordering'
 CONTROL_FLOW = 'std::ops::ControlFlow'
 FPCATEGORY = 'std::num::FpCategory'
+BOUND = 'std::ops::Bound'
 
 # variant index -> discriminant value as printed by SwitchInt (u128)
 DISCR = {
@@ -205,6 +206,7 @@ DISCR = {
     CONTROL_FLOW: {0: 0, 1: 1},
     ORDERING: {0: 255, 1: 0, 2: 1},   # Less = -1i8, Equal = 0, Greater = 1
     FPCATEGORY: {0: 0, 1: 1, 2: 2, 3: 3, 4: 4},   # Nan, Infinite, Zero, Subnormal, Normal
+    BOUND: {0: 0, 1: 1, 2: 2},                    # Included, Excluded, Unbounded
 }
 
 
